@@ -135,6 +135,10 @@ type OpsAction struct {
 	Val     uint64   `json:"val,omitempty"`
 	Epoch   uint64   `json:"epoch,omitempty"`
 	Variant int      `json:"variant,omitempty"`
+	// component-wise variants: a slashing is a PAIR (two headers / two attestations); V1 changes only the first
+	// component, V2 only the second, so that two different items can share one of their halves
+	V1 int `json:"v1,omitempty"`
+	V2 int `json:"v2,omitempty"`
 	Idx1    []uint64 `json:"idx1,omitempty"`
 	Idx2    []uint64 `json:"idx2,omitempty"`
 }
@@ -551,10 +555,11 @@ func buildExit(a *OpsAction) *phase0.SignedVoluntaryExit {
 
 func buildPropSlashing(a *OpsAction) *phase0.ProposerSlashing {
 	h := func(k int) common.SignedBeaconBlockHeader {
+		v := a.Variant + 10*[]int{0, a.V1, a.V2}[k]
 		return common.SignedBeaconBlockHeader{
 			Message: common.BeaconBlockHeader{Slot: common.Slot(a.Epoch), ProposerIndex: common.ValidatorIndex(a.Val),
-				ParentRoot: tag("parent", a.Epoch), StateRoot: tag("state", a.Epoch, k, a.Variant), BodyRoot: tag("body", k, a.Variant)},
-			Signature: sig96("hdr", a.Val, a.Epoch, k, a.Variant),
+				ParentRoot: tag("parent", a.Epoch), StateRoot: tag("state", a.Epoch, k, v), BodyRoot: tag("body", k, v)},
+			Signature: sig96("hdr", a.Val, a.Epoch, k, v),
 		}
 	}
 	return &phase0.ProposerSlashing{SignedHeader1: h(1), SignedHeader2: h(2)}
@@ -566,9 +571,10 @@ func buildAttSlashing(a *OpsAction) *phase0.AttesterSlashing {
 		for i, v := range idx {
 			ci[i] = common.ValidatorIndex(v)
 		}
-		d := phase0.AttestationData{Slot: common.Slot(a.Epoch * uint64(spec.SLOTS_PER_EPOCH)), Index: 0, BeaconBlockRoot: tag("asl", a.Epoch, k, a.Variant),
+		v := a.Variant + 10*[]int{0, a.V1, a.V2}[k]
+		d := phase0.AttestationData{Slot: common.Slot(a.Epoch * uint64(spec.SLOTS_PER_EPOCH)), Index: 0, BeaconBlockRoot: tag("asl", a.Epoch, k, v),
 			Source: common.Checkpoint{Epoch: 0, Root: tag("src", 0)}, Target: common.Checkpoint{Epoch: common.Epoch(a.Epoch), Root: tag("tgt", a.Epoch, k)}}
-		return phase0.IndexedAttestation{AttestingIndices: ci, Data: d, Signature: sig96("asl", a.Epoch, k, a.Variant, idx)}
+		return phase0.IndexedAttestation{AttestingIndices: ci, Data: d, Signature: sig96("asl", a.Epoch, k, v, idx)}
 	}
 	return &phase0.AttesterSlashing{Attestation1: ia(1, a.Idx1), Attestation2: ia(2, a.Idx2)}
 }
@@ -680,7 +686,7 @@ func runOps(kind string, c *OpsCase, ft *feat) *report.Failure {
 		what := a.Op
 		switch a.Op {
 		case "add":
-			what = fmt.Sprintf("add val=%d epoch=%d variant=%d idx=%v/%v", a.Val, a.Epoch, a.Variant, a.Idx1, a.Idx2)
+			what = fmt.Sprintf("add val=%d epoch=%d variant=%d/%d/%d idx=%v/%v", a.Val, a.Epoch, a.Variant, a.V1, a.V2, a.Idx1, a.Idx2)
 			var id string
 			var err error
 			if f := guard(addName, func() { id, err = add(a) }); f != nil {
@@ -1242,10 +1248,14 @@ func genOps(t *rapid.T, kind string) *Case {
 			return
 		}
 		a := c.Actions[adds[rapid.IntRange(0, len(adds)-1).Draw(t, "ref")]]
-		switch rapid.IntRange(0, 3).Draw(t, "mode") {
+		switch rapid.IntRange(0, 5).Draw(t, "mode") {
 		case 0, 1: // exact duplicate
 		case 2: // same validator / same indices, other content
 			a.Variant = 1 - a.Variant
+		case 4: // same first half (header / attestation), another second half
+			a.V2 = 1 - a.V2
+		case 5: // same second half, another first half
+			a.V1 = 1 - a.V1
 		case 3:
 			a.Epoch = (a.Epoch + 1) % 3
 			if kind == "attslash" && len(a.Idx1) > 1 {
